@@ -163,15 +163,35 @@ func runFmtCase(env *Env, id string, c fmtCase, dir string) {
 			} else {
 				ext := map[string]string{"file": ".txt", "gz": ".gz", "xz": ".xz"}[h.Via]
 				path := filepath.Join(dir, "rt"+ext)
-				w, err := utils.OpenWriteFile(path)
-				if err != nil {
-					ev.Kind, ev.Msg = "err", "open for writing: "+err.Error()
-					return
+				// one hop in VERIF_CLI_EVERY is written by `goalign reformat <format> -o <file>` instead of the library writer
+				viaCli := false
+				if cliSampled(fmtHopCount) {
+					cliReformatErr = ""
+					viaCli = cliReformat(cur, h, path, dir, fmtHopCount)
+					if viaCli {
+						ev.Msg = "written by goalign reformat"
+						fmtCliCount++
+						if cliReformatErr != "" {
+							ev.Kind, ev.Msg = "err", cliReformatErr
+							fmtHopCount++
+							return
+						}
+					}
 				}
-				for _, piece := range pieces { // one write per alignment, as the command line does
-					w.WriteString(piece)
+				fmtHopCount++
+				var err error
+				if !viaCli {
+					var w utils.StringWriterCloser
+					w, err = utils.OpenWriteFile(path)
+					if err != nil {
+						ev.Kind, ev.Msg = "err", "open for writing: "+err.Error()
+						return
+					}
+					for _, piece := range pieces { // one write per alignment, as the command line does
+						w.WriteString(piece)
+					}
+					utils.CloseWriteFile(w, path)
 				}
-				utils.CloseWriteFile(w, path)
 				closer, rd, err = utils.GetReader(path)
 				if err != nil {
 					ev.Kind, ev.Msg = "err", "open for reading: "+err.Error()
@@ -228,6 +248,97 @@ func runFmtCase(env *Env, id string, c fmtCase, dir string) {
 		cur = ev.Out
 	}
 }
+
+var fmtHopCount, fmtCliCount int
+
+// cliReformat writes the alignments through the command line: they are given as FASTA (one alignment) or as a Phylip
+// stream (several) - only when reading that input back gives the same alignments -, from a file, from "-" or from the
+// default standard input, and `goalign reformat <format>` writes the output file (plain, .gz or .xz by its name).
+func cliReformat(cur []fmtAl, h fmtHop, path, dir string, k int) bool {
+	sub := map[string]string{"fasta": "fasta", "phylip": "phylip", "nexus": "nexus", "clustal": "clustal"}[h.Fmt]
+	if sub == "" || len(cur) == 0 {
+		return false
+	}
+	var in strings.Builder
+	argv := []string{"reformat", sub, "-o", path}
+	als := make([]align.Alignment, len(cur))
+	for i, f := range cur {
+		als[i] = buildAl(f)
+		if als[i].NbSequences() == 0 {
+			return false
+		}
+	}
+	same := func(a align.Alignment, f fmtAl) bool {
+		v := viewAl(a)
+		if len(v.Rows) != len(f.Rows) {
+			return false
+		}
+		for i := range v.Rows {
+			if string(i2b(v.Rows[i].N)) != string(i2b(f.Rows[i].N)) || string(i2b(v.Rows[i].S)) != string(i2b(f.Rows[i].S)) {
+				return false
+			}
+		}
+		return true
+	}
+	if len(cur) == 1 {
+		in.WriteString(fasta.WriteAlignment(als[0]))
+		back, err := fasta.NewParser(strings.NewReader(in.String())).Parse()
+		if err != nil || !same(back, cur[0]) {
+			return false
+		}
+	} else {
+		for _, a := range als {
+			in.WriteString(phylip.WriteAlignment(a, false, false, false))
+		}
+		p := phylip.NewParser(strings.NewReader(in.String()), false)
+		for _, f := range cur {
+			back, err := p.Parse()
+			if err != nil || back == nil || !same(back, f) {
+				return false
+			}
+		}
+		argv = append(argv, "-p")
+	}
+	if h.Fmt == "phylip" {
+		if h.Strict {
+			argv = append(argv, "--output-strict")
+		}
+		if h.Oneline {
+			argv = append(argv, "--one-line")
+		}
+		if h.Noblock {
+			argv = append(argv, "--no-block")
+		}
+	}
+	var stdin []byte
+	switch fmtCliCount % 3 { // (k itself is a multiple of the sampling period)
+	case 0:
+		src := filepath.Join(dir, "cli_in.txt")
+		if os.WriteFile(src, []byte(in.String()), 0o644) != nil {
+			return false
+		}
+		defer os.Remove(src)
+		argv = append(argv, "-i", src)
+	case 1:
+		argv = append(argv, "-i", "-")
+		stdin = []byte(in.String())
+	default:
+		stdin = []byte(in.String())
+	}
+	os.Remove(path)
+	_, errs, code := runGoalign(stdin, argv...)
+	if code != 0 {
+		// the command refused an input the library parser reads back: logged as the failure of this hop
+		os.Remove(path)
+		cliReformatErr = "goalign " + strings.Join(argv, " ") + ": " + errs
+		if len(cliReformatErr) > 400 {
+			cliReformatErr = cliReformatErr[:400]
+		}
+	}
+	return true
+}
+
+var cliReformatErr string
 
 // ---- random round-trip cases ------------------------------------------------------------------
 var fmtLens = []int{1, 2, 9, 10, 11, 49, 50, 51, 59, 60, 61, 79, 80, 81, 100, 119, 120, 121, 160, 180}
@@ -347,6 +458,11 @@ func randFmtCase(rng *rand.Rand, tier string) fmtCase {
 
 func fmtFamily(env *Env) error {
 	dir := filepath.Dir(env.Out)
+	defer func() {
+		if goalignBin != "" {
+			fmt.Fprintf(os.Stderr, "driver: %d hops written by goalign reformat\n", fmtCliCount)
+		}
+	}()
 	n := 0
 	err := env.Cases(func(line []byte) error {
 		var c fmtCase
